@@ -80,6 +80,11 @@ def scope_sizes(tier):
                 if proto == "dbg" and n == 3:
                     continue
                 cases.append(("sizes", [N, E, s, ("impl", proto, "M", None, (("id", 1),), ())]))
+                if n < 3 and proto == "can":
+                    # the same binding under a name of its own (no struct is called R), and under the name of ANOTHER struct
+                    cases.append(("sizes", [N, E, s, ("impl", proto, "M", "R", (("id", 1),), ())]))
+                    if n == 1:
+                        cases.append(("sizes", [N, E, s, ("impl", proto, "M", "N", (("id", 1),), ())]))
     return cases
 
 
